@@ -75,16 +75,9 @@ def shrink(exe_cmd, case, still_fails, budget=120):
     return ' '.join(toks)
 
 
-def decide(spec, group, tier, seed, replay=None):
-    t_start = time.time()
+def check_obligations(spec, tier, broken):
+    """Lean build of the property module + driver, forbidden-construct grep, #print axioms, leanchecker (thorough)"""
     pid = spec['id']
-    os.makedirs(os.path.join(core.VERIF, 'evidence'), exist_ok=True)
-    os.makedirs(os.path.join(core.VERIF, 'replays'), exist_ok=True)
-    known = load_known()
-    broken = []          # names of obligations / correspondences that no longer check
-    notes = []
-
-    # ---- 1. proof obligations -------------------------------------------------------------
     module = spec['module']
     ok, out, t_build = core.lean_build([module, 'epsic_driver'])
     if not ok:
@@ -105,6 +98,20 @@ def decide(spec, group, tier, seed, replay=None):
         if not cok: broken.append(checker_note)
     discharged = len([t for t in thms if t in per_axioms and all(a in core.ALLOWED_AXIOMS for a in per_axioms[t])])
     log('%s: %d theorems, %d discharged, lean build %.1fs' % (pid, len(thms), discharged, t_build))
+    return ok, thms, discharged, per_axioms, checker_note
+
+
+def decide(spec, group, tier, seed, replay=None):
+    t_start = time.time()
+    pid = spec['id']
+    os.makedirs(os.path.join(core.VERIF, 'evidence'), exist_ok=True)
+    os.makedirs(os.path.join(core.VERIF, 'replays'), exist_ok=True)
+    known = load_known()
+    broken = []          # names of obligations / correspondences that no longer check
+    notes = []
+
+    module = spec['module']
+    ok, thms, discharged, per_axioms, checker_note = check_obligations(spec, tier, broken)
 
     # ---- 2. correspondence + oracle ----------------------------------------------------------
     gen = core.Gen(seed)
